@@ -157,7 +157,3 @@ def run(ctx: core.Ctx) -> core.Report:
     rep.sample({"op": ops[-1][:200], "model": outs[-1][:200]})
     return rep
 
-
-def replay(ctx, data):
-    print(data)
-    return 0
